@@ -36,6 +36,9 @@ CLAIMED = {
     "C05": ("bounded symbolic model checking of the set commands through the real dispatcher: operand sets over a 3-name universe with symbolic membership "
             "(missing / wrong-typed / repeated operands, STORE destination among the operands or of another type), against bit-vector set algebra; SMOVE incl. "
             "source = destination, SREM, SINTERCARD for all int64 limits, SRANDMEMBER shape for counts -3..3 and extreme counts", "5/C05"),
+    "C14": ("bounded symbolic model checking of programs of 2 (quick) / 3 (thorough) steps by two connections plus a third opened at a symbolic step, each step a "
+            "symbolic choice of SELECT / SET / GET / DEL / DBSIZE / FLUSHDB / FLUSHALL / CLIENT SETNAME / GETNAME, against 16 model maps and per-connection session records "
+            "(every reply, frame condition on every connection after every step, final cross-read); SELECT for every int64 index", "5/C14"),
     "C15": ("bounded symbolic model checking of resp3To2 on reply trees of every RESP3 kind (depth <= 1 quick / 2 thorough, symbolic leaves) against the canonical "
             "down-conversion, RESP2-only output types and one-frame serialisation; HELLO for all int64 protocol versions incl. frame condition on a second connection; "
             "30 commands of every reply shape executed on identical data under RESP2 and RESP3 with reply2 = downconvert(reply3)", "5/C15"),
